@@ -489,7 +489,7 @@ def run(ctx):
         run_.add("reentrant", probes_r, ops)
         n_re += 1
 
-    # D25: browsers (real _ServiceBrowserBase listeners) whose service handlers create browsers from inside the completion round
+    # D24b: browsers (real _ServiceBrowserBase listeners) whose service handlers create browsers from inside the completion round
     probes_b = CC.vocab_probes(C04.VOCAB, [C04.TX, C04.TY, C04.TZ])
     n_br = 0
     for k, ops in enumerate(C04.d25_histories()):
